@@ -10,9 +10,11 @@ import (
 	"fmt"
 	"io"
 	"math/rand"
+	"net"
 	"os"
 	"strings"
 	"testing"
+	"time"
 
 	"github.com/btcsuite/btcd/btcec/v2"
 	"github.com/lightningnetwork/lnd/internal/verifkit"
@@ -42,9 +44,10 @@ func (c11Timeout) Temporary() bool { return true }
 // c11Pipe is the byte stream of one direction, owned by the adversary.
 type c11Pipe struct {
 	buf    []byte
-	closed bool   // the stream has ended: later bytes of the writer go nowhere
-	cur    []byte // bytes consumed by the ReadMessage call in progress
-	tape   []byte // the bytes of the last message that was delivered
+	closed bool       // the stream has ended: later bytes of the writer go nowhere
+	cur    []byte     // bytes consumed by the ReadMessage call in progress
+	tape   []byte     // the bytes of the last message that was delivered
+	frag   *rand.Rand // when set, Read hands out a random non-empty part of what it could
 }
 
 // Read hands out what is there and reports EOF (the end of the stream) when
@@ -53,6 +56,13 @@ func (p *c11Pipe) Read(b []byte) (int, error) {
 	if len(p.buf) == 0 {
 		p.closed = true
 		return 0, io.EOF
+	}
+	if p.frag != nil && len(b) > 1 && len(p.buf) > 1 {
+		m := len(b)
+		if len(p.buf) < m {
+			m = len(p.buf)
+		}
+		b = b[:1+p.frag.Intn(m)]
 	}
 	n := copy(b, p.buf)
 	p.cur = append(p.cur, p.buf[:n]...)
@@ -110,6 +120,18 @@ func c11Hash(b []byte) string {
 	return hex.EncodeToString(h[:5])
 }
 
+// c11Net is the net.Conn under a brontide.Conn: reads from one pipe, writes to the other.
+type c11Net struct{ rd, wr *c11Pipe }
+
+func (c *c11Net) Read(b []byte) (int, error)       { return c.rd.Read(b) }
+func (c *c11Net) Write(b []byte) (int, error)      { c.wr.put(b); return len(b), nil }
+func (c *c11Net) Close() error                     { return nil }
+func (c *c11Net) LocalAddr() net.Addr              { return nil }
+func (c *c11Net) RemoteAddr() net.Addr             { return nil }
+func (c *c11Net) SetDeadline(time.Time) error      { return nil }
+func (c *c11Net) SetReadDeadline(time.Time) error  { return nil }
+func (c *c11Net) SetWriteDeadline(time.Time) error { return nil }
+
 // c11Session is two real Machines and the wire between them.
 type c11Session struct {
 	t     *testing.T
@@ -120,13 +142,16 @@ type c11Session struct {
 	act   []byte
 	pipe  map[string]*c11Pipe
 	hsErr bool
+	hs    []string // chunk hashes of the last Conn.Write
 	nev   int
 	last  string // error class of the last call
+	conn  map[string]*Conn
+	acc   map[string][]byte // bytes handed out by Conn.Read since its readBuf was last filled
 }
 
 func c11New(t *testing.T, rng *rand.Rand, out *verifkit.Writer) *c11Session {
 	return &c11Session{t: t, rng: rng, out: out, m: map[string]*Machine{},
-		pipe: map[string]*c11Pipe{"ab": {}, "ba": {}}}
+		pipe: map[string]*c11Pipe{"ab": {}, "ba": {}}, conn: map[string]*Conn{}, acc: map[string][]byte{}, hs: []string{}}
 }
 
 func c11Dir(m string) string {
@@ -164,7 +189,11 @@ func (s *c11Session) key() *btcec.PrivateKey {
 func (s *c11Session) emit(ev c11Event, err string, nn int, h string) {
 	rec := verifkit.Rec{"a": ev.A, "m": ev.M, "d": ev.D, "kind": ev.Kind, "size": ev.Size, "v": ev.V,
 		"k": ev.K, "o1": ev.O1, "o2": ev.O2, "o3": ev.O3, "h": h, "err": err, "nn": nn,
-		"Lab": len(s.pipe["ab"].buf), "Lba": len(s.pipe["ba"].buf)}
+		"Lab": len(s.pipe["ab"].buf), "Lba": len(s.pipe["ba"].buf), "hs": s.hs, "Arb": 0, "Brb": 0}
+	s.hs = []string{}
+	for n, c := range s.conn {
+		rec[n+"rb"] = c.readBuf.Len()
+	}
 	for _, n := range []string{"A", "B"} {
 		m := s.m[n]
 		if m == nil {
@@ -335,6 +364,37 @@ func (s *c11Session) apply(ev c11Event) {
 		q.buf = c11Insert(q.buf, ev.O3, p.buf[ev.O1:ev.O1+ev.O2])
 		s.emit(ev, "", 0, "")
 
+	case "CWrite":
+		p := s.payload(ev.Size, ev.V)
+		for o := 0; o == 0 || o < len(p); o += 65535 {
+			e := o + 65535
+			if e > len(p) {
+				e = len(p)
+			}
+			s.hs = append(s.hs, c11Hash(p[o:e]))
+		}
+		n, err := s.conn[ev.M].Write(p)
+		s.emit(ev, c11Class(err), n, "")
+
+	case "CRead":
+		c := s.conn[ev.M]
+		p := s.pipe[ev.D]
+		p.cur = p.cur[:0]
+		if c.readBuf.Len() == 0 {
+			s.acc[ev.M] = s.acc[ev.M][:0]
+		}
+		buf := make([]byte, ev.K)
+		n, err := c.Read(buf)
+		s.acc[ev.M] = append(s.acc[ev.M], buf[:n]...)
+		h := ""
+		if err == nil && c.readBuf.Len() == 0 {
+			h = c11Hash(s.acc[ev.M]) // the message is drained
+		}
+		if len(p.cur) > 0 && err == nil {
+			p.tape = append(p.tape[:0], p.cur...)
+		}
+		s.emit(ev, c11Class(err), n, h)
+
 	case "Burst":
 		s.burst(ev.D, ev.O1*(keyRotationInterval/2)+ev.O2, ev.Size)
 
@@ -451,15 +511,9 @@ func TestVerifC11Free(t *testing.T) {
 		rng := rand.New(rand.NewSource(verifkit.Seed()*7919 + int64(si)))
 		s := c11New(t, rng, out)
 		s.emit(c11Event{A: "Reset", Kind: fmt.Sprintf("free-%d", si)}, "", 0, "")
-		for _, a := range []string{"GenActOne", "RecvActOne", "GenActTwo", "RecvActTwo", "GenActThree", "RecvActThree"} {
-			ev := c11Event{A: a}
-			if a == "GenActOne" {
-				ev.Kind = "real"
-			}
-			s.apply(ev)
-		}
-		if s.hsErr {
-			t.Fatalf("clean handshake failed")
+		s.cleanHandshake()
+		if si%2 == 1 {
+			s.pipe["ab"].frag, s.pipe["ba"].frag = rng, rng
 		}
 		advLeft := rng.Intn(5) // 0: no adversary in this session
 		afterFail := 0
@@ -554,4 +608,74 @@ func TestVerifC11Free(t *testing.T) {
 		}
 	}
 	t.Logf("C11 free: %d sessions, %d lines", sessions, out.Lines())
+}
+
+func (s *c11Session) cleanHandshake() {
+	for _, a := range []string{"GenActOne", "RecvActOne", "GenActTwo", "RecvActTwo", "GenActThree", "RecvActThree"} {
+		ev := c11Event{A: a}
+		if a == "GenActOne" {
+			ev.Kind = "real"
+		}
+		s.apply(ev)
+	}
+	if s.hsErr {
+		s.t.Fatalf("clean handshake failed")
+	}
+}
+
+// TestVerifC11Conn drives brontide.Conn (Write with chunking above 65535
+// bytes, Read through readBuf with small caller buffers) over the same pipes,
+// the underlying reads fragmented at random.
+func TestVerifC11Conn(t *testing.T) {
+	out := verifkit.MustWriter(verifkit.Env("VERIF_OUT", ".") + "/trace.ndjson")
+	defer out.Close()
+	sessions := verifkit.EnvInt("VERIF_SESSIONS", 20)
+	steps := verifkit.EnvInt("VERIF_STEPS", 60)
+	sizes := []int{0, 1, 2, 3, 100, 65534, 65535, 65536, 65537, 131070, 131071, 150000}
+	for si := 0; si < sessions; si++ {
+		rng := rand.New(rand.NewSource(verifkit.Seed()*104729 + int64(si)))
+		s := c11New(t, rng, out)
+		s.emit(c11Event{A: "Reset", Kind: fmt.Sprintf("conn-%d", si)}, "", 0, "")
+		s.cleanHandshake()
+		for _, d := range []string{"ab", "ba"} {
+			s.pipe[d].frag = rng
+		}
+		s.conn["A"] = &Conn{conn: &c11Net{rd: s.pipe["ba"], wr: s.pipe["ab"]}, noise: s.m["A"]}
+		s.conn["B"] = &Conn{conn: &c11Net{rd: s.pipe["ab"], wr: s.pipe["ba"]}, noise: s.m["B"]}
+		adv := rng.Intn(3) == 0
+		fails := 0
+		for st := 0; st < steps && fails < 3; st++ {
+			m := []string{"A", "B"}[rng.Intn(2)]
+			d := c11Dir(m)
+			rd := c11Reader(d)
+			p := s.pipe[d]
+			switch r := rng.Intn(100); {
+			case r < 35:
+				size := sizes[rng.Intn(len(sizes))]
+				if rng.Intn(3) == 0 {
+					size = rng.Intn(300)
+				}
+				v := -1
+				if size == 2 || size == 65537 {
+					v = rng.Intn(400)
+				}
+				s.apply(c11Event{A: "CWrite", M: m, D: d, Size: size, V: v})
+			case r < 95:
+				if len(p.buf) == 0 && s.conn[rd].readBuf.Len() == 0 && rng.Intn(20) != 0 {
+					continue
+				}
+				want := []int{1, 2, 7, 100, 4096, 65535, 70000}[rng.Intn(7)]
+				s.apply(c11Event{A: "CRead", M: rd, D: d, K: want})
+				if s.last != "" {
+					fails++
+				}
+			default:
+				if !adv || len(p.buf) == 0 {
+					continue
+				}
+				s.apply(c11Event{A: "Corrupt", D: d, O1: rng.Intn(len(p.buf))})
+			}
+		}
+	}
+	t.Logf("C11 conn: %d sessions, %d lines", sessions, out.Lines())
 }
